@@ -10,7 +10,7 @@ one() {
   git -C /repo archive HEAD | tar -x -C "$w"
   if ! (cd "$w" && patch -p1 -s --no-backup-if-mismatch < "$d/patch.diff" >/dev/null 2>&1); then echo -e "$s\tAPPLY-FAILED"; rm -rf "$w"; return; fi
   if ! (cd "$w" && go build ./... && go build -tags test ./...) >/dev/null 2>&1; then echo -e "$s\tBUILD-FAILED"; rm -rf "$w"; return; fi
-  o=$(/verif/checker/bin/gcacheck -repo "$w" -prop all -tier quick -no-evidence 2>&1); rc=$?
+  o=$(${GCACHECK_BIN:-/verif/checker/bin/gcacheck} -repo "$w" -prop all -tier quick -no-evidence 2>&1); rc=$?
   rm -rf "$w"
   if [ $rc -eq 0 ]; then echo -e "$s\tsilent"; else echo -e "$s\tALARM rc=$rc $(echo "$o" | grep -E '^(VIOLATION|UNDECIDED)' | sed 's/ replay=.*//; s/ reason=.*//' | tr '\n' ' ')"; fi
 }
